@@ -9,6 +9,7 @@
 (* Elements [k, n, sub]:                                                   *)
 (*   plain | lcomment | define           one physical line                 *)
 (*   bcomment n      block comment spanning n lines                        *)
+(*   bcommentblank n block comment of n+2 lines, the n inner ones empty    *)
 (*   definecont n    #define continued by n backslash-newlines (n+1 lines) *)
 (*   textcont n      statement continued by n backslash-newlines           *)
 (*   inactive n | active n   #ifdef/#ifndef + n lines + #endif             *)
@@ -32,6 +33,7 @@ Phys(el) == CASE el.k \in {"plain", "lcomment", "define", "include", "undef", "u
               [] el.k = "else" -> el.n + 4
               [] el.k = "inactivestr" -> 4
               [] el.k = "bcomment" -> el.n
+              [] el.k = "bcommentblank" -> el.n + 2
               [] el.k \in {"definecont", "textcont"} -> el.n + 1
               [] el.k \in {"inactive", "active"} -> el.n + 2
 Newlines(el, dev) == IF el.k \in {"definecont", "textcont"} /\ "OneNewlinePerDirective" \in dev THEN 1 ELSE Phys(el)
@@ -72,6 +74,9 @@ Drift(src, dev) == AtFault(src, dev).drift
 LastMarker(src) == AtFault(src, {}).mark
 
 \* column (0-based) of the offending token on the fault line
+\* linemacro: [__LINE__, __FILE__] on one line; linemacroeol: __LINE__ is the last thing on its line
+\* (the line end follows directly), the statement goes on in the next line
+IsLineMacro(kind) == kind \in {"linemacro", "linemacroeol"}
 FaultOffset(kind) == CASE kind = "parse" -> 10      \* vd__q = 1 ) ;      the stray ")"
                        [] kind = "runtime" -> 10    \* vd__q = 1 + "a";   the "+"
                        [] OTHER -> 0
@@ -99,8 +104,9 @@ ExplainedByCodeModel(src, pos) == pos.L = Believed(src, {"OneNewlinePerDirective
 Pad(n) == IF n = 0 THEN "" ELSE IF n = 1 THEN " " ELSE IF n = 2 THEN "  " ELSE IF n = 3 THEN "   " ELSE "    "
 RECURSIVE Rep(_, _)
 Rep(s, n) == IF n <= 0 THEN "" ELSE s \o Rep(s, n - 1)
-FaultText(f) == Pad(f.pad) \o (IF f.pre = 1 THEN PreText ELSE "") \o (CASE f.kind = "parse" -> "vd__q = 1 ) ;"
+FaultText(f, nl) == Pad(f.pad) \o (IF f.pre = 1 THEN PreText ELSE "") \o (CASE f.kind = "parse" -> "vd__q = 1 ) ;"
                                  [] f.kind = "runtime" -> "vd__q = 1 + \"a\";"
+                                 [] f.kind = "linemacroeol" -> "vd__m = [__LINE__" \o nl \o ", __FILE__];"
                                  [] OTHER -> "vd__m = [__LINE__, __FILE__];")
 \* text of an element, every physical line terminated by nl
 ElText(el, nl, incname) ==
@@ -108,6 +114,7 @@ ElText(el, nl, incname) ==
       [] el.k = "lcomment" -> "// comment ) + \"" \o nl
       [] el.k = "define" -> "#define VD_A 1" \o nl
       [] el.k = "bcomment" -> IF el.n = 1 THEN "/* c ) */" \o nl ELSE "/* c" \o nl \o Rep(" c )" \o nl, el.n - 2) \o " c */" \o nl
+      [] el.k = "bcommentblank" -> "/* c" \o nl \o Rep(nl, el.n) \o " c */" \o nl      \* completely empty lines inside the comment
       [] el.k = "definecont" -> "#define VD_B x \\" \o nl \o Rep(" y \\" \o nl, el.n - 1) \o " z" \o nl
       [] el.k = "textcont" -> "vd__t = 1 \\" \o nl \o Rep(" + 2 \\" \o nl, el.n - 1) \o " + 3;" \o nl
       [] el.k = "inactive" -> "#ifdef VD_UNDEFINED" \o nl \o Rep("vd__dead = 1 ) ;" \o nl, el.n) \o "#endif" \o nl
@@ -133,7 +140,7 @@ LayFiles(lay, i, nl, nf, acc) ==      \* acc = [text, files, nf]
 RECURSIVE NestFiles(_, _, _, _, _)
 \* the chain of includes that leads to the fault: returns [tail text to append to the parent, files, nf]
 NestFiles(nest, j, nl, nf, fault) ==
-    IF j > Len(nest) THEN [text |-> FaultText(fault) \o nl, files |-> <<>>, nf |-> nf]
+    IF j > Len(nest) THEN [text |-> FaultText(fault, nl) \o nl, files |-> <<>>, nf |-> nf]
     ELSE LET name == IncFile(nf + 1)
              body == LayFiles(nest[j], 1, nl, 0, [text |-> "", files |-> <<>>, nf |-> nf + 1])
              rest == NestFiles(nest, j + 1, nl, body.nf, fault)
